@@ -206,7 +206,7 @@ func c19Compare(c *fw.Ctx, ref, x c19Result, layout string, input string) bool {
 	}
 	if ref.err != nil && x.err != nil && ref.thrown == nil && x.thrown == nil {
 		// the error a program ends with is part of what it means: same text on every route, positions aside
-		if a, b := c19PosRE.ReplaceAllString(ref.err.Error(), ""), c19PosRE.ReplaceAllString(x.err.Error(), ""); a != b {
+		if a, b := c19PosRE.ReplaceAllString(hx.ErrorCore(ref.err), ""), c19PosRE.ReplaceAllString(hx.ErrorCore(x.err), ""); a != b {
 			c.Violate(fw.Violation{Key: "error-text:" + key, What: fmt.Sprintf("route %s ends with the error %q, route %s with %q (positions removed)", ref.route, a, x.route, b), Input: input})
 			return false
 		}
